@@ -72,6 +72,13 @@ def layouts(tier="quick"):
     add("LENR(cal 3x+1),BLOB(8 x raw LENR + 8),u8", [("LENR", PType("LENC3_T", "Integer", IntEnc(8, default_cal=Poly(((1.0, 0), (3.0, 1)))))),
                                                      ("BLOB", PType("BDR_T", "Binary", BinEnc(Dyn(f"L{len(out)}_LENR", False, 8, 8)))), ("Z", U(8))],
         prefix=lambda ln: format(ln, "08b"), uses_len=True)
+    # bit-granular adjustments: computed lengths of -8, -4 (LEN 0), -7, -3 (LEN 1) ... bits, then positive and not whole bytes
+    add("LEN,STR(4LEN-4),u4", [("LEN", U(8)), ("STR", PType("SD4_T", "String", StrEnc(Dyn("LEN", True, 4, -4), "ISO-8859-1"))), ("N", U(4))],
+        prefix=lambda ln: format(ln, "08b"), uses_len=True)
+    add("LEN,STR(4LEN-7),u7", [("LEN", U(8)), ("STR", PType("SD7_T", "String", StrEnc(Dyn("LEN", True, 4, -7), "ISO-8859-1"))), ("N", U(7))],
+        prefix=lambda ln: format(ln, "08b"), uses_len=True)
+    add("LEN,BLOB(4LEN-4),u4", [("LEN", U(8)), ("BLOB", PType("BD4_T", "Binary", BinEnc(Dyn("LEN", False, 4, -4)))), ("N", U(4))],
+        prefix=lambda ln: format(ln, "08b"), uses_len=True)
     add("LEN,STR(lookup: LEN==1 -> 0 bits, else 16),u8", [("LEN", U(8)), ("STR", PType("SLZ_T", "String", StrEnc(
         Lookup((((Cmp("LEN", "==", "1"),), 0.0), ((Cmp("LEN", ">=", "0"),), 16.0))), "US-ASCII"))), ("Z", U(8))],
         prefix=lambda ln: format(ln, "08b"), uses_len=True)
